@@ -106,10 +106,16 @@ def r01_1(ctx, rep, roles, snd):
     clos = []
     for f in go:
         clos += [c for c in fx.closures_of(f["id"], recursive=False)]
+    # the per-member generator may be a named private function instead of a closure
+    named = [h for h in sorted(getattr(fx, "new_helpers", ())) if fx.fns[h].get("inputs") == ["&delta::NodeDelta"]
+             and any(g["id"] in fx.attributed(h) for g in go)]
     eng = sym.Engine(fx)
     found = False
-    for c in clos:
-        rows = eng.table(c, arg_terms={1: ("ptr", ("S", "env"), ()), 2: ("ptr", ("S", "nd"), ())})
+    for c in clos + named:
+        if c in named:
+            rows = eng.table(c, arg_terms={1: ("ptr", ("S", "nd"), ())})
+        else:
+            rows = eng.table(c, arg_terms={1: ("ptr", ("S", "env"), ()), 2: ("ptr", ("S", "nd"), ())})
         for row in rows:
             if row.exit != "return":
                 continue
@@ -233,13 +239,13 @@ def r01_2(ctx, rep, roles, pm):
                                where(pm.fn, e[3][1]), sample="%s(.., exclusion = collect(scheduled_for_deletion_nodes()))" % role)
     # create_syn_message
     cs = roles.create_syn
-    eng = sym.Engine(fx, no_inline={roles.chitchat_compute_digest["id"], sched["id"]})
+    eng = sym.Engine(fx, no_inline={roles.compute_digest["id"], sched["id"]})
     cs_rows = eng.table(cs["id"], arg_terms={1: ("ptr", ("S", "self"), ())})
     for row in cs_rows:
         if row.exit == "backedge":
             continue
         for e in row.calls():
-            if e[1] == roles.chitchat_compute_digest["id"]:
+            if e[1] == roles.compute_digest["id"]:
                 n += 1
                 src = e[2][1]
                 if src[0] == "ptr":
